@@ -304,6 +304,7 @@ func buildRegistry() []*entry {
 		e.cmpOpt = func(c *cmp) { c.sameOffset = true }
 	}))
 	add(xtimeAttrEntry())
+	add(mucJoinOptionsEntry())
 
 	// ---- forward, carbons
 	add(refl[forward.Forwarded]("forward.Forwarded"))
